@@ -322,7 +322,7 @@ func TestC05(t *testing.T) {
 		w := winWidth(pos)
 		nwin := 256 / w
 		for k := 0; k < nwin; k++ {
-			keep := hx.Thorough()
+			keep := true // [as built] the full enumeration costs ~5 s on 16 cores, so both tiers enumerate every unit
 			if !keep {
 				if pos < 5 { // three windows per 16-bit point: the top one, one last-of-limb, one seed-selected
 					sel := int(hx.Expand(seed, "c05sel16", pos).Uint64() % uint64(nwin))
@@ -353,10 +353,8 @@ func TestC05(t *testing.T) {
 		}
 	}
 	s.Rec.Extra("digit_units_enumerated", len(units))
-	if hx.Thorough() {
-		s.Rec.Extra("exhaustive", complete && !s.Failed())
-		s.Rec.Extra("exhaustive_subdomain", "every (basis position, window, digit 1..2^w-1, carry-in) single-coefficient vector with scalar < r")
-	}
+	s.Rec.Extra("exhaustive", complete && !s.Failed())
+	s.Rec.Extra("exhaustive_subdomain", "every (basis position, window, digit 1..2^w-1, carry-in) single-coefficient vector with scalar < r")
 	c05Digit.Run(s, 0) // corpus replay only
-	c05Vec.Run(s, hx.PerShard(hx.Pick(320, 5000)))
+	c05Vec.Run(s, hx.PerShard(hx.Pick(960, 16000)))
 }
